@@ -15,7 +15,9 @@
 //!  C18 with a password the first line is `password <pw>` (tokenised as MPD does), nothing else before its reply
 use std::{sync::{Arc, Mutex}, time::Duration};
 use mpd_client::{Client, client::{CommandError, ConnectionEvent}, protocol::command::{Command as RawCommand, CommandList as RawCommandList}};
-use tokio::{io::{AsyncReadExt, AsyncWriteExt, DuplexStream}, time::{Instant, sleep, sleep_until, timeout}};
+use tokio::{io::{AsyncReadExt, AsyncWriteExt, DuplexStream, Join}, time::{Instant, sleep, sleep_until, timeout}};
+/// one end of the transport: reads from one in-memory pipe, writes to another (so that the two directions can have different capacities)
+type End = Join<DuplexStream, DuplexStream>;
 
 #[derive(Clone)]
 struct Rng(u64);
@@ -175,7 +177,7 @@ fn reply_for(cmds: &[(String, Vec<String>)], is_list: bool) -> Vec<u8> {
     out
 }
 
-struct Server { io: Option<DuplexStream>, sc: Scenario, sh: Sh, t0: Instant, cut_left: Option<usize> }
+struct Server { io: Option<End>, sc: Scenario, sh: Sh, t0: Instant, cut_left: Option<usize> }
 impl Server {
     /// write through the fault filter; false = the stream was cut / is gone
     async fn put(&mut self, data: &[u8], _whole_is_reply: bool) -> bool {
@@ -415,7 +417,11 @@ async fn scenario(seed: u64) -> (Vec<(String, String)>, Vec<String>) {
     let t0 = Instant::now();
     let sh: Sh = Arc::new(Mutex::new(Shared::default()));
     tr(&sh, t0, format!("scenario {sc:?}"));
-    let (cio, sio) = tokio::io::duplex(if sc.small_pipe { 3 } else { 1 << 16 });
+    // server -> client always has room (a real transport has kernel buffers: with a tiny pipe in BOTH directions the peers deadlock writing at
+    // each other, which is the simulation's artefact, not the client's); client -> server holds 3 bytes in the stalled-transport scenarios
+    let (c_down, s_down) = tokio::io::duplex(1 << 16);
+    let (c_up, s_up) = tokio::io::duplex(if sc.small_pipe { 3 } else { 1 << 16 });
+    let (cio, sio): (End, End) = (tokio::io::join(c_down, c_up), tokio::io::join(s_up, s_down));
     let faulty = !matches!(sc.fault, Fault::None);
     let srv = tokio::spawn(server(Server { io: Some(sio), sc: sc.clone(), sh: sh.clone(), t0, cut_left: if let Fault::CutAfter(n) = sc.fault { Some(n + 14) } else { None } }));
     let conn = match &sc.password {
@@ -457,7 +463,9 @@ async fn scenario(seed: u64) -> (Vec<(String, String)>, Vec<String>) {
     // let the scripted notifications and the re-idle delay pass
     let last = sc.notifs.last().map_or(0, |n| n.0);
     let now_ms = Instant::now().duration_since(t0).as_millis() as u64;
-    sleep(Duration::from_millis(last.saturating_sub(now_ms) + 1000)).await;
+    // (with a server that stalls after every reply, abandoned requests are still worked off one stall at a time after their callers have gone)
+    let backlog: u64 = sc.busy_ms * (2 + sc.callers.iter().map(|c| c.len() as u64).sum::<u64>());
+    sleep(Duration::from_millis(last.saturating_sub(now_ms) + 1000 + backlog)).await;
     let (closed_by_server, unclean, idling) = { let g = sh.lock().unwrap(); (g.closed_by_server, g.unclean, g.idling) };
     if !closed_by_server {
         // C05: quiet for a second -> the client must be idling again so that notifications keep flowing
